@@ -67,8 +67,13 @@ def run_check(pid: str, tier: str, seed: int) -> int:
         terrs = translate.run_all()
     except Exception as e:  # fail closed
         terrs = [f"translator crashed: {e!r}"]
+    cone = lib.gen_cone(list(getattr(mod, "COQ_TARGETS", [])))
     for e in terrs:
-        broken.append(f"translator: {e}")
+        gen_name = e.split(":", 1)[0].strip()
+        if cone is None or gen_name.replace(".v", "") in cone or gen_name.startswith(("translator crashed", "Gen_broken")):
+            broken.append(f"translator: {e}")
+        else:
+            print(f"  (translator error outside this property's cone, ignored here: {e[:200]})")
 
     # 2. proofs
     targets = list(getattr(mod, "COQ_TARGETS", []))
@@ -100,7 +105,9 @@ def run_check(pid: str, tier: str, seed: int) -> int:
 
     # 4. search when something broke and no concrete failing input is at hand
     violations: list[Violation] = list(res.violations)
-    if broken and not violations and hasattr(mod, "search"):
+    known0 = lib.load_known()
+    unexplained = [v for v in violations if known_match(known0, pid, v) is None]
+    if broken and not unexplained and hasattr(mod, "search"):
         try:
             violations += mod.search(ctx, broken)
         except Exception:
